@@ -388,7 +388,10 @@ class error_997_visitor(error_visitor.error_visitor):
                 seg_data = pyx12.segment.Segment(seg_str, '~', '*', ':')
                 seg_data.set('AK403', err_cde)
                 if bad_value:
-                    seg_data.set('AK404', bad_value)
+                    # the echoed value must not add or split elements or segments of this document
+                    for term in (self.seg_term, self.ele_term, self.subele_term):
+                        bad_value = bad_value.replace(term, ' ')
+                    seg_data.set('AK404-1', bad_value)
                 self._write(seg_data)
 
     def _write(self, seg_data):
